@@ -390,7 +390,7 @@ impl Sim {
         for i in 0..prof.clients.clamp(1, 3) {
             let mut cfg = prof.app.clone();
             if prof.wrong_proto & (1 << i) != 0 && cfg.auth == 0 {
-                cfg.proto_variant = 1;
+                cfg.proto_variant = prof.wrong_variant.clamp(1, 4) as u32;
             }
             let app = build_app(&cfg, prof.client_role);
             clients.push(ClientNode {
